@@ -37,13 +37,22 @@ def main():
         lean_ok = True
         with core.lean_lock():
             ctx.facts = extract.run_all(ctx, getattr(mod, "EXTRACTORS", []))
-            targets = [f"EinxModel.Props.{prop}", "driver"]
+            # further property files of the same property (e.g. Props/C01Lower.lean), named by the harness
+            extra_props = list(getattr(mod, "EXTRA_PROPS", []))
+            targets = [f"EinxModel.Props.{prop}"] + [f"EinxModel.Props.{x}" for x in extra_props] + ["driver"]
             ok, log, failing = core.lake_build(targets)
             names, n_examples = core.property_theorems(prop)
+            for x in extra_props:
+                xn, xe = core.property_theorems(x)
+                names, n_examples = names + xn, n_examples + xe
             ctx.obligations = len(names) + n_examples
             if ok:
                 ctx.discharged = ctx.obligations
                 aok, axioms, problems = core.audit(prop)
+                for x in extra_props:
+                    xok, xax, xpr = core.audit(x)
+                    aok, problems = aok and xok, problems + [q for q in xpr if q not in problems]
+                    axioms.update(xax)
                 ctx.axioms = axioms
                 if not aok:
                     for p in problems:
@@ -58,7 +67,7 @@ def main():
                 broken_names = set()
                 for (f, ln, name, msg) in failing:
                     ctx.tie_broken(f"theorem:{name}", f"{f}:{ln}: {msg}")
-                    if f.endswith(f"Props/{prop}.lean"):
+                    if f.endswith(f"Props/{prop}.lean") or any(f.endswith(f"Props/{x}.lean") for x in extra_props):
                         broken_names.add(name)
                 if not failing:
                     raise core.MachineryError("lake build failed without a Lean error:\n" + log[-3000:])
